@@ -251,6 +251,7 @@ impl Exec {
     pub fn apply(&mut self, op: &Op) -> R {
         self.cur_uid = op.uid;
         self.stats.ops += 1;
+        crate::util::probe_mark(&op_props(&op.kind));
         if self.cfg.faults {
             let n = crate::wfault::predict(self, op).len() as u32;
             if n > 0 {
@@ -776,6 +777,13 @@ impl Exec {
     // cross-invariants after every step
 
     pub fn post(&mut self, state_props: &[&str]) -> R {
+        if self.cfg.faults && self.stats.faults_fired > 0 {
+            let mut ps = state_props.to_vec();
+            ps.push("C19");
+            crate::util::probe_mark(&ps);
+        } else {
+            crate::util::probe_mark(state_props);
+        }
         // order matters for attribution: observable state first (the operation's own property),
         // then event streams, then the value ledger
         self.check_double_drops()?;
@@ -1111,6 +1119,7 @@ impl Exec {
     /// settles the ledger.
     pub fn finish(&mut self) -> R {
         self.cur_uid = u32::MAX;
+        crate::util::probe_mark(if self.cfg.faults { &["C08", "C19"] } else { &["C08"] });
         let dirty = !self.model.lazy.is_empty()
             || self
                 .model
@@ -1236,6 +1245,26 @@ pub fn match_events(real: &[Ev], exp: &[ExpEv]) -> bool {
         }
         x.push(e);
     }
+    // the removal events of one operation (a batch deletion, delete_all, the purge of a maintain)
+    // may come in any order relative to each other: the property fixes operation order, not the
+    // order inside one operation - so maximal runs of `Removed` are compared as sets
+    fn sort_rem_runs<T>(v: &mut [T], is_rem: impl Fn(&T) -> Option<u32>) {
+        let mut i = 0;
+        while i < v.len() {
+            if is_rem(&v[i]).is_some() {
+                let mut j = i;
+                while j < v.len() && is_rem(&v[j]).is_some() {
+                    j += 1;
+                }
+                v[i..j].sort_by_key(|e| is_rem(e).unwrap());
+                i = j;
+            } else {
+                i += 1;
+            }
+        }
+    }
+    sort_rem_runs(&mut r, |e| if let Ev::Rem(i) = e { Some(*i) } else { None });
+    sort_rem_runs(&mut x, |e| if let Ev::Rem(i) = e.ev { Some(i) } else { None });
     // dynamic programming over (i, j) is overkill: optional entries are only ever `Modified`, and
     // a greedy match is exact because an optional entry is never followed by an equal entry.
     let mut i = 0;
